@@ -328,7 +328,7 @@ int main(int argc, char **argv) {
     while (std::getline(f, line)) {
       Value b;
       if (!vj::parseLine(line, b)) continue;
-      if (b.has("circ")) {
+      if (b.has("circ") && b["scen"].asStr() == "legcase") {
         // TLC-enumerated small circuit (LegalizeCases): legalize twice with an observing callback
         long long k = b["run"].asInt();
         Circuit base = vp::circuitFromJson(b["circ"]);
@@ -338,6 +338,39 @@ int main(int argc, char **argv) {
         rs.set("withCb", true).set("params", vg::paramsToJson(p)).set("circ", b["circ"]).set("wl", 0);
         vt::emit(rs);
         vt::forked((int)k, timeout, errPath, [&] { scenario("leg", (int)k, base, p, true); });
+        continue;
+      }
+      if (b.has("scen") && b["scen"].asStr() == "expcase") {
+        // TLC-enumerated tiny expansion problem (ExpansionCases): both expansion entry points with the emitted arguments
+        long long k = b["run"].asInt();
+        Circuit base = vp::circuitFromJson(b["circ"]);
+        Value rs = vt::ev("Reset");
+        rs.set("run", k).set("scen", "expcase").set("gseed", k).set("params", vg::paramsToJson(ColoquinteParameters(3))).set("circ", b["circ"]).set("wl", 0);
+        vt::emit(rs);
+        int p64 = (int)b["p64"].asInt(), m2 = (int)b["m2"].asInt(), cap64 = (int)b["cap64"].asInt();
+        vt::forked((int)k, timeout, errPath, [&] {
+          for (int rep = 0; rep < 2; ++rep) {
+            Circuit a = base;
+            Value e = vt::ev("Expand");
+            e.set("run", (int)k).set("m2", m2).set("p64", p64).set("before", vp::circuitToJson(a));
+            std::string outcome = "ok";
+            try {
+              if (rep == 0) {
+                a.expandCellsToDensity(p64 / 64.0, m2 / 2.0, cap64 / 64.0);
+                e.set("kind", "density").set("cap64", cap64);
+              } else {
+                std::vector<float> f;
+                for (long long q : b["f4"].longs()) f.push_back((float)q / 4.0f);
+                double ret = a.expandCellsByFactor(f, p64 / 64.0, m2 / 2.0);
+                e.set("kind", "factor").set("f4", b["f4"]).set("ret1000", (long long)std::llround(std::min(ret, 1.0e6) * 1000.0));
+              }
+            } catch (std::exception &ex) {
+              outcome = "error";
+            }
+            e.set("outcome", outcome).set("after", vp::circuitToJson(a));
+            vt::emit(e);
+          }
+        });
         continue;
       }
       if (!b.has("shape")) continue;
